@@ -236,6 +236,8 @@ var pureStatic = map[string]string{
 	"nsname:New":      "constructor",
 	"nsname:ForObject": "constructor from accessors",
 	"filter:FiltersEqual": "pure given pure Equals (C17)",
+	"listResourceVersion": "same-package pure helper over meta.ListAccessor (shape checked by C14)",
+	"extractList":         "same-package pure helper over meta.ExtractList (shape checked by C14)",
 	"github.com/pkg/errors.Wrap":      "wraps its argument",
 	"github.com/pkg/errors.WithStack": "wraps its argument",
 }
